@@ -346,7 +346,8 @@ fn run_case_inner(case: &Value, engine: &str, own_hook: bool) -> Value {
         "allow": allow.iter().map(|a| bytes_json(&a.read())).collect::<Vec<_>>(),
         "hlog": hlog,
         "aligned": aligned,
-        "slack": pkt.slack_intact() && mbuf.slack_intact() && allow.iter().all(|a| a.slack_intact()),
+        "slack": allow.iter().any(|a| a.is_overlay())
+            || (pkt.slack_intact() && mbuf.slack_intact() && allow.iter().all(|a| a.slack_intact())),
     });
     match res {
         Err(e) => {
